@@ -150,6 +150,14 @@ def run(ctx, drv):
             callable_cons = source != "algorithm" and ncon > 0 and t % 7 == 3
             if callable_cons:       # constraints given as functions returning a signed residual (not representable in a file: supplied on load)
                 prob.constraints[:] = [C.Constraint(lambda x, k=k: x - float(k)) for k in range(ncon)]
+            decl_exact = None
+            if source == "algorithm" and ncon > 0 and t % 2 == 0:
+                # constraints declared with the two-argument form and thresholds that need all 17 digits
+                decl_exact = [(rng.choice(["<=", ">=", "<", ">", "==", "!="]),
+                               rng.choice([1 / 3, 0.7071067811865476, 123456.789, -98765.4321, 1.000000001e-07, 2.0 ** 53 - 1, rand_double(rng) if False else 0.1 + 0.2]))
+                              for _ in range(ncon)]
+                for i_, (o_, y_) in enumerate(decl_exact):
+                    prob.constraints[i_] = C.Constraint(o_, y_)
             if source == "algorithm":
                 name = rng.choice(["NSGAII", "EpsMOEA", "SPEA2"])
                 if name == "EpsMOEA":
@@ -162,6 +170,14 @@ def run(ctx, drv):
                     ctx.count("algorithm_runs_refused")
                     continue
                 original = list(alg.result)
+                if ncon > 0 and t % 4 == 1:
+                    # results whose constraint values are exactly zero under declarations that do and do not admit zero
+                    for i_ in range(ncon):
+                        prob.constraints[i_] = rng.choice(["<0", ">0", "!=0", ">=1", "<=-0.5", "==0", "<=0", ">=0"])
+                    for s_ in original:
+                        s_.constraints[:] = [rng.choice([0.0, 0.0, -0.0, 0]) for _ in range(ncon)]
+                        s_.constraint_violation = sum([abs(f(x)) for f, x in zip(prob.constraints, s_.constraints)])
+                        s_.feasible = s_.constraint_violation == 0.0
                 w = call(IO.save_json, path, alg)
             else:
                 original = make_solutions(rng, spec, prob, rng.choice([0, 1, 2, 5]), adversarial=True)
@@ -216,6 +232,17 @@ def run(ctx, drv):
                         ctx.fail("violation-not-recomputed-from-the-loaded-problem", dict(minp, index=i), [b.constraint_violation, b.feasible], [ecv, ecv == 0.0], "io._PlatypusJSONDecoder")
                         bad = True
                         break
+                    if not callable_cons:
+                        # feasibility straight from the declared relations (not through the library's constraint functions)
+                        REL = {"==": lambda x, y: x == y, "!=": lambda x, y: x != y, "<=": lambda x, y: x <= y, ">=": lambda x, y: x >= y,
+                               "<": lambda x, y: x < y, ">": lambda x, y: x > y}
+                        holds = all(REL[o_](float(x_), y_) for (o_, y_), x_ in zip(cons_of(b.problem), b.constraints))
+                        if bool(b.feasible) != holds or (b.constraint_violation == 0) != holds:
+                            ctx.fail("loaded-feasibility-contradicts-declared-relations", dict(minp, index=i, constraints=[c.op for c in b.problem.constraints],
+                                                                                             values=[repr(x_) for x_ in b.constraints]),
+                                     [b.constraint_violation, b.feasible], holds, "io._PlatypusJSONDecoder / core.Constraint")
+                            bad = True
+                            break
                     if callable_cons:
                         if b.problem is not prob:
                             ctx.fail("supplied-problem-not-used", dict(minp, index=i), "another problem", "the supplied problem", "io._PlatypusJSONDecoder")
@@ -230,6 +257,21 @@ def run(ctx, drv):
                                      {"constraints": [c.op for c in prob.constraints], "directions": [d.name for d in prob.directions]}, "io._PlatypusJSONDecoder.object_hook")
                             ctx.failures[-1]["input_class"] = "algorithm-file-loaded-without-problem" if (source == "algorithm" and mode == "without-problem") else None
                             bad = True
+                            break
+                        # the restored constraints behave like the declared ones, also right at their thresholds
+                        import math as _m
+                        thr = decl_exact if decl_exact is not None else cons_of(prob)
+                        for ci, (o_, y_) in enumerate(thr):
+                            for x_ in (y_, _m.nextafter(y_, _m.inf), _m.nextafter(y_, -_m.inf), y_ + 1.0, y_ - 1.0):
+                                va, vb = call(prob.constraints[ci], x_), call(b.problem.constraints[ci], x_)
+                                if not same_value([va], [vb]):
+                                    ctx.fail("problem-definition-not-restored", dict(minp, index=i, constraint=f"{o_} {y_!r}", at=repr(x_)), repr(vb), repr(va), "io._PlatypusJSONDecoder.object_hook")
+                                    ctx.failures[-1]["input_class"] = "restored-constraint-behaves-differently"
+                                    bad = True
+                                    break
+                            if bad:
+                                break
+                        if bad:
                             break
                         if b.constraint_violation != a.constraint_violation or b.feasible != a.feasible:
                             ctx.fail("violation-or-feasibility-changed", dict(minp, index=i), [b.constraint_violation, b.feasible], [a.constraint_violation, a.feasible], "io._PlatypusJSONDecoder.object_hook")
